@@ -53,6 +53,37 @@ CHECKS = {
          "get_SCD vs that lag form on every pattern <= 7/10 and random sequences to 300.",
          "Real.sqrt vs float sqrt: compared within 1e-9; the harness takes the square roots (math.sqrt, fsum).",
          "Lean 4 proof over R (Finset sum reindexing) + differential correspondence through exact integer lag sums"),
+ "C13": ("Lean theorems, for ANY str.upper / str.isspace functions: construction from a string succeeds iff the upper-cased string with white "
+         "space deleted is a non-empty word over the 20 letters, and the object then holds exactly that word; non-strings, '', and strings that "
+         "normalise to nothing are rejected; a normalised word is a fixed point. A tie module proves the hypotheses for Python's own upper/isspace "
+         "as tabulated from the running interpreter on every run. Correspondence: every code point U+0000-U+21FF (thorough: whole BMP + astral "
+         "samples) as a 1-char string, characters inserted at every position, decorated valid sequences, non-strings; analyses of the object vs "
+         "analyses of the normalised word.",
+         "CPython's Unicode tables (upper/isspace) are tabulated, not verified.",
+         "Lean 4 proof (induction over the character list, parametric in upper/isspace) + exhaustive-code-point correspondence"),
+ "C14": ("Lean theorems, for ANY isspace: full iff-characterisation of parseSeqFile (at most one header line; every other non-blank stripped line only "
+         "letters, '*', blanks, digits; no '*' or exactly one as the last kept character; result = kept characters in order minus that '*'), the "
+         "result consists of residue letters only, rejection of a second header / any other character / bad '*', universal-newline splitting inverts "
+         "joining with LF or CRLF, and the layout theorem (arbitrary line breaks, blank lines, spacing, numbering parse to exactly the residues). "
+         "Correspondence: random layouts and ALL single-character substitutions/insertions (every ASCII char + Unicode sample, every position) of "
+         "small files, through parseSeqFile and SequenceParameters(sequenceFile=...).",
+         "File decoding (UTF-8, universal newlines) is modelled by splitLines, not verified; non-UTF-8 bytes are out of scope.",
+         "Lean 4 proof (iff-characterisation by induction over lines with the loop state generalised) + exhaustive single-corruption correspondence"),
+ "C16": ("Lean theorems: one set call appends in first-occurrence order the valid new positions; history theorem: after ANY series of set/clear calls "
+         "get_phosphosites is eraseDups(filter valid (requests since the last clear)) (+1), never repeats, only in-range S/T/Y; sequence and palette "
+         "never change; phosphosequence has E exactly at the listed positions; kappa-after equals kappa of the phosphosequence (under the C15 cache "
+         "invariant); the distribution has 2^k entries in binary counting order (valBE(onOff k) = range 2^k) each carrying the six values of the "
+         "substituted sequence, the last being the fully phosphorylated one; S/T/Y class regenerated from the live code. Correspondence: random "
+         "histories with positions 0, negative, beyond the end, duplicates, int/list/tuple.",
+         "Defect found and repaired (fix: commit): out-of-range positions were not skipped.",
+         "Lean 4 proof (induction over call histories, eraseDups algebra) + history-based differential testing"),
+ "C20": ("Lean theorems on the character-level model: the rendering is prefix + for residue i (0-based) [space iff 10|i][<br> iff 50|i] + one span with "
+         "the residue letter in its palette colour, in order + suffix; stripping tags and blanks recovers the sequence (colours contain no '>'); a "
+         "dictionary is accepted iff all 20 one-letter keys are bound to one of the 17 documented names; a rejected update leaves the palette "
+         "unchanged; after any series of updates the palette is the last accepted one else the initial one. Tie: default palette and accept/reject "
+         "of 41 probed colour names regenerated from the live code. Correspondence + regex-structure oracle on random update histories.",
+         "str.lower() on accepted names is the identity and is not modelled.",
+         "Lean 4 proof (list-of-characters model, induction) + regenerated palette facts (decide) + history-based differential testing"),
  "C08": ("Lean theorems: for every sequence (every (n+,n-,N)) the region cascade never reaches a raise and returns exactly the region of "
          "the exact rational thresholds; range 1..5; 4/5 decided by strict majority; depends only on the counts. Correspondence: every "
          "triple with N<=40 (quick) / 120 (thorough) realised as a sequence, plus boundary compositions up to N=1000.",
